@@ -19,7 +19,7 @@ SPACE = {R.PT_INITIAL: "initial", R.PT_HANDSHAKE: "handshake", R.PT_ZERO_RTT: "a
 
 
 class PacketView:
-    __slots__ = ("ptype", "pn", "frames", "size", "ack_eliciting", "info", "space", "key_phase", "raw", "payload", "header")
+    __slots__ = ("ptype", "pn", "frames", "size", "ack_eliciting", "info", "space", "key_phase", "raw", "payload", "header", "dest", "dgram_len")
 
     def __init__(self, ptype, pn, frames, size, info, key_phase, raw, payload, header):
         self.ptype = ptype
